@@ -7,10 +7,11 @@ git -C /repo worktree remove --force $WT 2>/dev/null
 git -C /repo worktree add -q --detach $WT HEAD || exit 2
 while read commit prop rule; do
   [ -z "$commit" ] && continue
-  git -C $WT checkout -q -- . 
+  git -C $WT reset -q --hard HEAD
   ok=1
   for c1 in $(echo $commit | tr '+' ' '); do
-    git -C /repo show $c1 -- . | git -C $WT apply -R 2>/dev/null || ok=0
+    # a three-way revert tolerates later commits that touched neighbouring lines
+    git -C $WT revert --no-commit $c1 >/dev/null 2>&1 || { git -C $WT revert --abort >/dev/null 2>&1; git -C $WT reset -q --hard HEAD; git -C /repo show $c1 -- . | git -C $WT apply -R 2>/dev/null || ok=0; }
   done
   if [ $ok = 0 ]; then echo "$commit $prop: cannot revert"; continue; fi
   out=$(/verif/bin/pqverif -prop $prop -tier quick -repo $WT -evidence /tmp/fixcheck-ev -known /verif/known_findings.json 2>&1)
@@ -46,7 +47,7 @@ ffad523 C05 C05.boundary
 9a87f9b C08 C08.errexit
 d7c8347 C18 C18.fileid
 4c9c370 C20 C20.retry
-d7c8347+508f87a C17 C17.reset
+508f87a C17 C17.reset
 200dc39 C07 C07.strategies
 e6f927d C16 C16.destreads
 LIST
